@@ -2,7 +2,7 @@
    Statements only; proofs in Proofs/StackProofs.v. *)
 From Coq Require Import List Bool.
 Import ListNotations.
-Require Import BT.Num BT.Base BT.Records BT.Engine BT.Ops BT.Algos BT.Proofs.StackProofs BT.Proofs.RunProofs.
+Require Import BT.Num BT.Base BT.Records BT.Engine BT.Ops BT.Algos BT.Proofs.StackProofs BT.Proofs.RunProofs BT.Proofs.OobProofs.
 
 Section C13.
 Variable N : num.
@@ -103,3 +103,16 @@ Theorem C13_temp_reset_touches_only_that_strategy : forall (N : num) (p : list n
               snd tr1 = snd tr.
 Proof. exact temp_reset_at. Qed.
 Print Assumptions C13_temp_reset_touches_only_that_strategy.
+
+(* RunIfOutOfBounds on a fresh tree: True exactly when some child named in the target weights deviates from its target by
+   more than the tolerance (|child weight - target| / target), children without a target are ignored; the tree is unchanged.
+   (With "cash" in temp the code raises AttributeError — `targets.value` on a dict — which the model mirrors as EAttr.) *)
+Theorem C13_run_if_out_of_bounds : forall (N : num) ps e p tol (tr : tree N (astate N)) g kids st targets,
+  snd tr = false ->
+  get_astate p tr = Ok (g, kids, st) ->
+  t_weights (a_temp st) = Some targets -> t_cash (a_temp st) = None ->
+  (forall k w, lookup k targets = Some w -> neqb N w (n0 N) && negb (t_wseries (a_temp st)) = false) ->
+  run_algo ps e p (ARunIfOutOfBounds N tol) tr =
+  Ok (ARunIfOutOfBounds N tol, existsb (deviates N tol targets kids) (kid_ids kids), tr).
+Proof. exact out_of_bounds_spec. Qed.
+Print Assumptions C13_run_if_out_of_bounds.
